@@ -460,4 +460,176 @@ theorem MK.loop_emits : ∀ (f m : Nat) (st : MK), KInv st → (∀ l ∈ st.rem
           simp only [MK.rems, replayCount_bufs] at ih
           exact ⟨Emits.trans hE0 ih.1, ih.2⟩
 
+
+/-! ## initialisation and one `ReadRows` call -/
+
+theorem readOr_rem (b : Buf) (hw : b.win = []) : (readOr b).rem = b.rem := by
+  unfold readOr
+  cases hr : b.read with
+  | none => rfl
+  | some b' => simp [Buf.read_rem hr]
+
+theorem aliveAt_lt {bufs : List Buf} {i : Nat} (h : aliveAt bufs i = true) : i < bufs.length := by
+  unfold aliveAt at h
+  split at h
+  · rename_i b hb; exact lt_of_getElem?_some hb
+  · cases h
+
+theorem initialize_rems (st : MK) (hw : ∀ b ∈ st.bufs, b.win = []) : st.initialize.rems = st.rems := by
+  have : (st.bufs.map readOr).map Buf.rem = st.bufs.map Buf.rem := by
+    rw [List.map_map]
+    apply List.map_congr_left
+    intro b hb
+    exact readOr_rem b (hw b hb)
+  unfold MK.initialize
+  simp only
+  split <;> simpa [MK.rems] using this
+
+theorem initialize_kinv (st : MK) (hw : ∀ b ∈ st.bufs, b.win = []) : KInv st.initialize := by
+  have hlen : (st.bufs.map readOr).length = st.bufs.length := by simp
+  have hget : ∀ (x : Nat) (b : Buf), st.bufs[x]? = some b → (st.bufs.map readOr)[x]? = some (readOr b) := by
+    intro x b hb; simp [hb]
+  unfold MK.initialize
+  simp only
+  split
+  · rename_i hpos
+    let H : Heads := { alive := aliveAt st.bufs,
+                       key := fun x => ((st.bufs.map readOr).getD x (Buf.fresh [] [])).head.key }
+    have hfull : ∀ x, H.alive x = true → ∃ c, (st.bufs.map readOr)[x]? = some c ∧ c.win ≠ [] ∧ c.head.key = H.key x := by
+      intro x ha
+      have ha' : aliveAt st.bufs x = true := ha
+      unfold aliveAt at ha'
+      split at ha'
+      · rename_i b hb
+        obtain ⟨b', hb'⟩ := Option.isSome_iff_exists.mp ha'
+        refine ⟨readOr b, hget x b hb, ?_, ?_⟩
+        · simp only [readOr, hb', Option.getD_some]; exact Buf.read_win hb'
+        · simp [H, List.getD_eq_getElem?_getD, hb]
+      · cases ha'
+    have hdead : ∀ x, x < (st.bufs.map readOr).length → H.alive x = false →
+        ∃ c, (st.bufs.map readOr)[x]? = some c ∧ c.rem = [] := by
+      intro x hx ha
+      rw [hlen] at hx
+      have hb : st.bufs[x]? = some st.bufs[x] := List.getElem?_eq_getElem hx
+      have ha' : aliveAt st.bufs x = false := ha
+      unfold aliveAt at ha'
+      rw [hb] at ha'
+      simp only at ha'
+      have hnone : st.bufs[x].read = none := by
+        cases hr : st.bufs[x].read with
+        | none => rfl
+        | some _ => rw [hr] at ha'; cases ha'
+      refine ⟨readOr st.bufs[x], hget x _ hb, ?_⟩
+      rw [readOr_rem _ (hw _ (List.getElem_mem hx))]
+      simp [Buf.rem, hw _ (List.getElem_mem hx), Buf.read_none hnone]
+    have hleaves : LeavesOk (st.bufs.map readOr)
+        ((List.range st.bufs.length).map (fun i => if aliveAt st.bufs i then (i : Int) else -1)) H := by
+      refine ⟨by simp, ?_, ?_⟩
+      · intro x hx
+        rw [hlen] at hx
+        simp [List.getD_eq_getElem?_getD, hx, H]
+      · intro x ha
+        obtain ⟨c, h1, _, h3⟩ := hfull x ha
+        rw [headOf_eq h1, h3]
+    obtain ⟨htinv, hroot⟩ := init_inv hleaves (List.replicate st.bufs.length 0) (by simp)
+    rw [hlen] at htinv hroot
+    have hsome : ∃ x, x < st.bufs.length ∧ aliveAt st.bufs x = true :=
+      countP_pos_iff.mp (by omega)
+    obtain ⟨w1, h1, h2⟩ := fresh_of_tinv
+      (st2 := { st with bufs := st.bufs.map readOr,
+                        losers := (playInitialGames (st.bufs.map readOr)
+                          ((List.range st.bufs.length).map (fun i => if aliveAt st.bufs i then (i : Int) else -1))
+                          st.bufs.length 0 (List.replicate st.bufs.length 0)).2,
+                        count := (List.range st.bufs.length).countP (aliveAt st.bufs),
+                        winner := (playInitialGames (st.bufs.map readOr)
+                          ((List.range st.bufs.length).map (fun i => if aliveAt st.bufs i then (i : Int) else -1))
+                          st.bufs.length 0 (List.replicate st.bufs.length 0)).1,
+                        winnerLeaf := (st.bufs.length : Int) + (playInitialGames (st.bufs.map readOr)
+                          ((List.range st.bufs.length).map (fun i => if aliveAt st.bufs i then (i : Int) else -1))
+                          st.bufs.length 0 (List.replicate st.bufs.length 0)).1,
+                        initialized := true })
+      (H' := H) (w' := initW (st.bufs.map readOr)
+        ((List.range st.bufs.length).map (fun i => if aliveAt st.bufs i then (i : Int) else -1)))
+      (by simpa [hlen] using htinv) hroot (by simp [hlen])
+      (by intro x ha; rw [hlen]; exact aliveAt_lt ha) hfull hdead (by simp [hlen, H])
+      (by simpa [hlen] using hsome)
+    exact kinv_of_live h1 h2 (by show (List.range st.bufs.length).countP (aliveAt st.bufs) ≠ 0; omega)
+  · rename_i hpos
+    have hz : (List.range st.bufs.length).countP (aliveAt st.bufs) = 0 := by omega
+    refine ⟨fun _ => ?_, fun h => absurd rfl h⟩
+    intro b hb
+    simp only [List.mem_map] at hb
+    obtain ⟨b0, hb0, rfl⟩ := hb
+    obtain ⟨x, hx, rfl⟩ := List.mem_iff_getElem.mp hb0
+    have hdeadx : aliveAt st.bufs x = false := by
+      have := List.countP_eq_zero.mp hz x (List.mem_range.mpr hx)
+      simpa using this
+    unfold aliveAt at hdeadx
+    rw [List.getElem?_eq_getElem hx] at hdeadx
+    simp only at hdeadx
+    have hnone : st.bufs[x].read = none := by
+      cases hr : st.bufs[x].read with
+      | none => rfl
+      | some _ => rw [hr] at hdeadx; cases hdeadx
+    rw [readOr_rem _ (hw _ hb0)]
+    simp [Buf.rem, hw _ hb0, Buf.read_none hnone]
+
+theorem initialize_init (st : MK) : st.initialize.initialized = true := by
+  unfold MK.initialize; simp only; split <;> rfl
+
+theorem replayGames_init (st : MK) : st.replayGames.initialized = st.initialized := rfl
+
+theorem MK.loop_init : ∀ (f m : Nat) (st : MK), (MK.loop f m st).2.initialized = st.initialized
+  | 0, _, _ => rfl
+  | f + 1, m, st => by
+    simp only [MK.loop]
+    split
+    · rfl
+    split
+    · split
+      · rw [MK.loop_init f]; unfold MK.replayKeep; split <;> rfl
+      · rw [MK.loop_init f]; unfold MK.replayKeep; split <;> rfl
+    · split
+      · rfl
+      · split
+        · split
+          · rfl
+          · rw [MK.loop_init f]; rfl
+        · rw [MK.loop_init f]; unfold MK.replayCount; split <;> rfl
+
+/-- state invariant of the k-way reader between `ReadRows` calls -/
+def MK.Ok (st : MK) : Prop :=
+  (st.initialized = false → ∀ b ∈ st.bufs, b.win = []) ∧ (st.initialized = true → KInv st)
+
+theorem MK.readRows_emits (st : MK) (m : Nat) (hok : st.Ok) (hs : ∀ l ∈ st.rems, SortedK l) :
+    Emits st.rems (st.readRows m).1 (st.readRows m).2.2.rems ∧ (st.readRows m).2.2.Ok ∧
+    ((st.readRows m).2.2.initialized = true) ∧
+    ((st.readRows m).2.1 = true → ∀ l ∈ (st.readRows m).2.2.rems, l = []) := by
+  obtain ⟨st1, hst1, hrem1, hk1, hi1⟩ : ∃ st1, st1 = (if st.initialized then st else st.initialize) ∧
+      st1.rems = st.rems ∧ KInv st1 ∧ st1.initialized = true := by
+    refine ⟨_, rfl, ?_, ?_, ?_⟩
+    · split
+      · rfl
+      · rename_i h; exact initialize_rems st (hok.1 (by simpa using h))
+    · split
+      · rename_i h; exact hok.2 h
+      · rename_i h; exact initialize_kinv st (hok.1 (by simpa using h))
+    · split
+      · assumption
+      · exact initialize_init st
+  have hunf : st.readRows m = ((MK.loop (2 * m + 2) m st1).1, decide ((MK.loop (2 * m + 2) m st1).2.count = 0),
+      (MK.loop (2 * m + 2) m st1).2) := by
+    rw [hst1]; rfl
+  rw [hunf]
+  obtain ⟨hE, hK⟩ := MK.loop_emits (2 * m + 2) m st1 hk1 (hrem1 ▸ hs)
+  have hinit : (MK.loop (2 * m + 2) m st1).2.initialized = true := by rw [MK.loop_init, hi1]
+  have hok' : (MK.loop (2 * m + 2) m st1).2.Ok :=
+    ⟨fun h => (by rw [hinit] at h; cases h), fun _ => hK⟩
+  refine ⟨hrem1 ▸ hE, hok', hinit, ?_⟩
+  intro heof l hl
+  simp only [decide_eq_true_eq] at heof
+  simp only [MK.rems, List.mem_map] at hl
+  obtain ⟨b, hb, rfl⟩ := hl
+  exact hK.1 heof b hb
+
 end PqModel.Merge
